@@ -46,6 +46,9 @@ STUB_COMPONENTS = []
 MODEL_COMPONENTS = ["sim/models.py: OwnerMap (C01), RecordSetModel (C05) - oracles, not replacements"]
 
 
+OUT_DIR = os.environ.get("VERIF_OUT_DIR") or VERIF_DIR  # sensitivity runs redirect replays/evidence to a scratch dir
+
+
 def _write_json(path, value):
     os.makedirs(os.path.dirname(path), exist_ok=True)
     tmp = path + ".tmp"
@@ -167,13 +170,13 @@ def cmd_check(args):
         mt["original_ops"] = len(trace["ops"])
         mt["found_at"] = {"base_seed": base_seed, "index": res["index"], "tier": tier, "repo_head": repo_head()}
         d8 = hashlib.sha256(json.dumps(mt["ops"], sort_keys=True).encode()).hexdigest()[:8]
-        violation_path = os.path.join(VERIF_DIR, "replays", f"{prop}-{res['seed']}-{d8}.json")
+        violation_path = os.path.join(OUT_DIR, "replays", f"{prop}-{res['seed']}-{d8}.json")
         _write_json(violation_path, mt)
         ok, p = _verify_in_fresh_interpreter(prop, violation_path, vio["signature"])
         if not ok:
             # fall back to the unminimised trace before giving up
             full = dict(trace, violation=vio, found_at=mt["found_at"], minimisation={"minimised": False})
-            violation_path = os.path.join(VERIF_DIR, "replays", f"{prop}-{res['seed']}-full.json")
+            violation_path = os.path.join(OUT_DIR, "replays", f"{prop}-{res['seed']}-full.json")
             _write_json(violation_path, full)
             ok, p = _verify_in_fresh_interpreter(prop, violation_path, vio["signature"])
             if not ok:
@@ -267,7 +270,7 @@ def _write_evidence(prop, tier, base_seed, agg, det, reg, violations, wall, budg
         "wall_s": round(wall, 2),
         "violations": violations,
     }
-    _write_json(os.path.join(VERIF_DIR, "evidence", f"{prop}.json"), ev)
+    _write_json(os.path.join(OUT_DIR, "evidence", f"{prop}.json"), ev)
 
 
 def main(argv):
